@@ -60,6 +60,12 @@ def make_cases(tier, rng):
     for _ in range(1 if tier == "quick" else 6):
         ests = [g.est(rng, nopeer="dial_only"), g.est(rng, nopeer="accept_only"), g.est(rng, start=200), g.est(rng, start=5600)]
         add(rng.choice(["inproc", "process"]), ests, "unmatched")
+    # the gRPC half of C09's last clause: closing the client ends the brokers' goroutines (a few in-process cases, it takes seconds)
+    n = 0
+    for c in cases:
+        if c["pair"] == "inproc" and c["fam"] in ("unmatched", "sequence", "extreme-ids") and not c.get("hold") and n < (3 if tier == "quick" else 12):
+            c["leak_check"] = True
+            n += 1
     return cases
 
 
